@@ -8,6 +8,7 @@ C03 - what is documented in each namespace is what Python defines there.  Claime
   R03.6 an existing Function object is re-entered only for overloads
   R03.7 the walk descends into every block executed in addition to the body (loop/try else, finally)
   R03.8 sibling variable handlers: an attribute found without a kind gets one
+  R03.9 every name-binding target form of an assignment is taken apart (Tuple, List, Starred, nested)
 Does not decide: the differential statement against the interpreter (members, docstrings, kinds for every program).
 """
 from __future__ import annotations
@@ -271,4 +272,19 @@ def run(repo: Repo, chk: Check, thorough: bool = False) -> None:
                '`timeout = 30`) keeps kind None, is HIDDEN - missing from the page, the search and the inventory - and no --privacy rule can bring it back',
                h.loc)
     chk.require('R03.8', 3)
+
+    # ------------------------------------------------------------------ R03.9
+    # target forms of an assignment statement that bind names (oracle: the grammar - Name, Tuple, List, Starred, nested): each one must be
+    # taken apart down to its names, otherwise the variables it binds are missing
+    va = repo.func(f'{MV}.visit_Assign')
+    reach = [va] + [g for g in repo.funcs.values() if g.cls is va.cls and any(call_name(c) == g.name and isinstance(c.func, ast.Attribute) and dotted(c.func.value) == 'self'
+                                                                             for c in calls_in(va)) and 'Unpack' in g.name or g.name == '_handleUnpackingTarget' and g.cls is va.cls]
+    handled_t = {x.attr for g in reach for c in calls_in(g) if call_name(c) == 'isinstance' and len(c.args) == 2 for x in ast.walk(c.args[1])
+                 if isinstance(x, ast.Attribute) and dotted(x.value) == 'ast'}
+    for tcls in ('Tuple', 'List', 'Starred'):
+        chk.ob('R03.9', f'{MV}.visit_Assign :: ast.{tcls} targets are taken apart', tcls in handled_t,
+               'unpacked down to the names' if tcls in handled_t else
+               f'an assignment whose target is an ast.{tcls} (`[c, d] = ...`, `h, *rest = ...`, nested `e, (f, g) = ...`) binds names that are never documented',
+               va.loc)
+    chk.require('R03.9', 3)
 
